@@ -71,7 +71,8 @@ An(a, b) == [k |-> "and", l |-> a, r |-> b]
 Tr(d, t) == [k |-> "trans", v |-> "x", d |-> d, t |-> t]
 Ro(d, m, p) == [k |-> "rot", v |-> "x", d |-> d, m |-> m, p |-> p]
 Pr(a, b) == [k |-> "prod", l |-> a, r |-> b]
-Roq(d, an, p) == [k |-> "rot", v |-> "x", d |-> d, m |-> "quarter", an |-> an, p |-> p]      \* rotation by (pi/2) * parameter an
+Roq(d, an, p) == [k |-> "rot", v |-> "x", d |-> d, m |-> "quarter", an |-> an, an2 |-> "", ao |-> 0, p |-> p]      \* rotation by (pi/2) * parameter an
+Roq2(d, p) == [Roq(d, "t", p) EXCEPT !.an2 = "k"]                          \* an angle function of TWO variables: (pi/2) * (t + k)
 Ro3(d, m, p) == [k |-> "rot", v |-> "y", d |-> d, m |-> m, p |-> p]
 V3(a, b, c) == <<A0(a), A0(b), A0(c)>>
 \* a cuboid 3 x 2 x 1 (unequal sides), as a mesh
@@ -83,6 +84,7 @@ ASSUME MeshWF(MeshBox)
 RotQ1 == {Roq(a, an, p) : a \in {Par(V2(-8, -6), V2(4, -2), V2(-4, 6)), Tri(V2(0, 0), V2(10, 0), V2(0, 8)), Cir(<<A1(-4, "t"), A0(0)>>, A1(2, "k")),
                                   Tri(<<A0(-4), A1(-8, "k")>>, <<A0(8), A1(-8, "k")>>, <<A0(-4), A1(0, "k")>>), Poly(<<RingL>>)},
                            an \in {"t", "k"}, p \in RotPts}
+RotQ2 == {Roq2(a, p) : a \in {Par(V2(-8, -6), V2(4, -2), V2(-4, 6)), Tri(V2(0, 0), V2(10, 0), V2(0, 8)), Cir(V2(4, -2), A0(4))}, p \in RotPts}
 Rot3D1 == {Ro3(a, m, p) : a \in {MeshBox, MeshTet}, m \in {"z345", "x345", "y90", "zx"}, p \in {V3(0, 0, 0), V3(2, -4, 2)}}
           \cup {Ro3(a, m, p) : a \in {Sph, SphT}, m \in {"z345", "x345", "y90"}, p \in {V3(2, -4, 2), <<A1(-2, "t"), A0(0), A0(2)>>}}
           \cup {Ro3(Cu(MeshBox, Sph), "x345", V3(0, 0, 0)), Un(Ro3(MeshBox, "z345", V3(0, 0, 0)), MeshTet)}
@@ -109,7 +111,7 @@ PolyD1 == UNION {{Un(q, a), Un(a, q), Cu(q, a), Cu(a, q), An(q, a), An(a, q)} : 
           \cup {Tr(q, t) : q \in Polys, t \in TransVecs} \cup {Ro(q, m, p) : q \in Polys, m \in Rots, p \in RotPts}
           \cup {Pr(q, i) : q \in Polys, i \in Ints} \cup {Pr(i, q) : q \in Polys, i \in Ints}
 MeshD1 == {Un(MeshTet, Sph), Cu(Sph, MeshCube), Cu(MeshCube, Sph), An(MeshBi, SphT), An(Sph, MeshTet), Un(MeshCube, MeshBi), Cu(MeshCube, MeshTet)}
-Exh == Prims2 \cup Ints \cup {IntBig} \cup {Sph, SphT} \cup Polys \cup Meshes \cup PolyD1 \cup MeshD1 \cup RotQ1 \cup Rot3D1 \cup {x \in Depth1 : x.k \notin {"union", "cut", "and"} \/ x.l # x.r}
+Exh == Prims2 \cup Ints \cup {IntBig} \cup {Sph, SphT} \cup Polys \cup Meshes \cup PolyD1 \cup MeshD1 \cup RotQ1 \cup RotQ2 \cup Rot3D1 \cup {x \in Depth1 : x.k \notin {"union", "cut", "and"} \/ x.l # x.r}
 
 \* ---- random growth
 R(S) == RandomElement(S)
